@@ -788,7 +788,7 @@ def body_count(data) -> Outcome:
 # ------------------------------------------------------------------------------------------------
 
 
-def campaigns(tier):
+def _base_campaigns(tier):
     return [
         Campaign("single", body_single, sweep_recipe("abcd"), quick=4000, thorough=150000,
                  describe="one Sweep: list/iter/generate/generate_sweep/len vs reference"),
@@ -806,3 +806,12 @@ def campaigns(tier):
 
 
 PREDICATES = {}
+
+
+def campaigns(tier):
+    camps = list(_base_campaigns(tier))
+    if tier == "thorough":  # coverage-guided search over the same structured cases (fuzz/hyp_fuzz.py)
+        from vlib.core import cov_fuzz_campaign
+
+        camps.append(cov_fuzz_campaign(PID, [('sum', 20000)]))
+    return camps
